@@ -872,8 +872,11 @@ pub fn child18(seed: u64, idx: u64) -> Value {
                 let n = *rng.pick(&[0usize, 1, 2, 64, 100, 4096, 32767, 32768, 40000]);
                 let bps = if rng.chance(1, 2) { odd(&mut rng, 16, 25) } else { *rng.pick(&[8usize, 9, 12, 13, 16, 17, 20, 21, 24, 25]) };
                 let lim = 1i64 << (bps.clamp(1, 31) - 1);
-                let samples: Vec<i32> = (0..n).map(|_| if rng.chance(1, 200) { *rng.pick(&[lim as i32, (-lim - 1) as i32, i32::MAX, i32::MIN]) } else { rng.range(-lim, lim - 1) as i32 }).collect();
-                desc = format!("Verbatim::new(samples.len={n}, bps={bps})");
+                // out-of-range samples only in a third of the calls (decided per call, so that long
+                // all-valid vectors exist)
+                let with_bad = rng.chance(1, 3);
+                let samples: Vec<i32> = (0..n).map(|_| if with_bad && rng.chance(1, 200) { *rng.pick(&[lim as i32, (-lim - 1) as i32, i32::MAX, i32::MIN]) } else { rng.range(-lim, lim - 1) as i32 }).collect();
+                desc = format!("Verbatim::new(samples.len={n}, bps={bps}, out-of-range samples: {with_bad})");
                 if let Ok(c) = Verbatim::new(&samples, bps) {
                     post!("Verbatim", c, |b: &[u8], _bits: usize| {
                         let pb = pad(b);
